@@ -94,8 +94,10 @@ def c07_knockout(E, shapes=None, ngenes=3, max_rules=None, w=1, all_orders=False
     genes = sorted(g.id for g in m.genes)
     E.note(rules=[str(r) for r in rules])
     api = E.pick("api", ["Gene.knock_out", "knock_out_model_genes(objects)", "knock_out_model_genes(ids)",
-                         "knock_out_model_genes(indices)", "one-call-per-gene"])
+                         "knock_out_model_genes(indices)", "one-call-per-gene", "knock_out_model_genes(ids+unknown-id)"])
     ctx = E.pick("context", ["none", "with", "nested"])
+    if api == "knock_out_model_genes(ids+unknown-id)" and ctx == "nested":
+        return
     perms = list(itertools.permutations(range(len(genes))))
     if not all_orders or len(genes) > 3:
         perms = [perms[0], perms[-1]]
@@ -116,6 +118,16 @@ def c07_knockout(E, shapes=None, ngenes=3, max_rules=None, w=1, all_orders=False
             knock_out_model_genes(m, list(chosen))
         elif api == "knock_out_model_genes(indices)":
             knock_out_model_genes(m, [m.genes.index(g) for g in chosen])
+        elif api == "knock_out_model_genes(ids+unknown-id)":
+            # a call that fails part-way (an id that is no gene, after valid ones): whatever it leaves behind, the genes that
+            # report non-functional afterwards and the closed reactions must still agree
+            try:
+                knock_out_model_genes(m, list(chosen) + ["not_a_gene"])
+                E.prove(False, "unknown-gene-id-raises")
+            except (KeyError, ValueError, TypeError):
+                pass
+            absent.clear()
+            absent.update(g for g in genes if not m.genes.get_by_id(g).functional)
         else:
             for g in chosen:
                 ret = knock_out_model_genes(m, [g])
